@@ -30,7 +30,7 @@ theorem encPublic_eq_encKVs : ∀ (a : List (String × PyVal)), a.all (fun kv =>
     simp only [encPublic, encKVs, h.1, if_true, ih h.2]
 
 theorem dec_typed (ctx : Registry) (d : List (String × JVal)) (ty : String)
-    (ht : d.lookup "_type" = some (.str ty)) (hne : ty ≠ "string_repr") :
+    (ht : d.lookup "_type" = some (.str ty)) (hne : ty ≠ "string_repr") (hnd : ty ≠ "dict") :
     dec ctx (.obj d) = (match ctx.lookup ty with
       | none => PyVal.dict ((decDataOf ctx d).getD [])
       | some (m, kind) => PyVal.obj ty m kind ((decDataOf ctx d).getD [])) := by
@@ -42,14 +42,38 @@ theorem dec_typed (ctx : Registry) (d : List (String × JVal)) (ty : String)
     injection heq with heq
     injection heq with heq
     exact absurd heq hne
-  · rename_i ty' _ heq
+  · rename_i heq
+    injection heq with heq
+    injection heq with heq
+    exact absurd heq hnd
+  · rename_i ty' _ _ heq
     injection heq with heq
     injection heq with heq
     subst heq
     rfl
-  · rename_i v h1 h2 h3
-    injection h3 with h3
-    exact absurd h3.symm (h2 ty)
+  · rename_i v h1 h2 h3 h4
+    injection h4 with h4
+    exact absurd h4.symm (h3 ty)
+
+/-- a wrapped dict comes back as the dict of its data -/
+theorem dec_wrapped (ctx : Registry) (d : List (String × JVal)) (ht : d.lookup "_type" = some (.str "dict")) :
+    dec ctx (.obj d) = PyVal.dict ((decDataOf ctx d).getD []) := by
+  unfold dec
+  rw [ht]
+  split
+  · rename_i heq; cases heq
+  · rename_i heq
+    injection heq with heq
+    injection heq with heq
+    exact absurd heq (by decide)
+  · rfl
+  · rename_i ty h1 h2 heq
+    injection heq with heq
+    injection heq with heq
+    exact absurd heq.symm h2
+  · rename_i v h1 h2 h3 h4
+    injection h4 with h4
+    exact absurd h4.symm (h3 "dict")
 
 mutual
 /-- **round trip**: every supported value — scalars, lists, tuples, string-keyed dicts, plain
@@ -67,21 +91,28 @@ theorem codec_roundtrip (ctx : Registry) : ∀ (v : PyVal), Supported ctx v = tr
       simp only [Supported] at h
       simp only [enc, dec, norm, roundtrip_list ctx l h]
   | .dict d, h => by
-      simp only [Supported, Bool.and_eq_true, Bool.not_eq_true'] at h
-      simp only [enc, dec, norm]
-      rw [lookup_encKVs_none "_type" d h.1]
-      simp only [roundtrip_kvs ctx d h.2]
+      simp only [Supported] at h
+      simp only [enc, norm]
+      by_cases hk : d.any (·.1 == "_type") = true
+      · -- the dict uses the reserved key: it travels wrapped
+        rw [if_pos hk, dec_wrapped ctx _ (by simp [List.lookup])]
+        simp [decDataOf, roundtrip_kvs ctx d h]
+      · rw [if_neg hk]
+        simp only [Bool.not_eq_true] at hk
+        simp only [dec]
+        rw [lookup_encKVs_none "_type" d hk]
+        simp only [roundtrip_kvs ctx d h]
   | .obj c m .auto a, h => by
       simp only [Supported, Bool.and_eq_true, beq_iff_eq, bne_iff_ne, ne_eq] at h
-      obtain ⟨⟨⟨h1, h2⟩, h3⟩, h4⟩ := h
+      obtain ⟨⟨⟨⟨h1, h2⟩, h2d⟩, h3⟩, h4⟩ := h
       simp only [enc, norm, encPublic_eq_encKVs a h3]
-      rw [dec_typed ctx _ c (by simp [List.lookup]) h2, h1]
+      rw [dec_typed ctx _ c (by simp [List.lookup]) h2 h2d, h1]
       simp [decDataOf, roundtrip_kvs ctx a h4]
   | .obj c m .custom a, h => by
       simp only [Supported, Bool.and_eq_true, beq_iff_eq, bne_iff_ne, ne_eq] at h
-      obtain ⟨⟨h1, h2⟩, h4⟩ := h
+      obtain ⟨⟨⟨h1, h2⟩, h2d⟩, h4⟩ := h
       simp only [enc, norm]
-      rw [dec_typed ctx _ c (by simp [List.lookup]) h2, h1]
+      rw [dec_typed ctx _ c (by simp [List.lookup]) h2 h2d, h1]
       simp [decDataOf, roundtrip_kvs ctx a h4]
 
 theorem roundtrip_list (ctx : Registry) : ∀ (l : List PyVal), supList ctx l = true →
@@ -98,6 +129,10 @@ theorem roundtrip_kvs (ctx : Registry) : ∀ (d : List (String × PyVal)), supKV
       simp only [supKVs, Bool.and_eq_true] at h
       simp only [encKVs, decKVs, normKVs, codec_roundtrip ctx v h.1, roundtrip_kvs ctx rest h.2]
 end
+
+/-- the point the earlier statement of the theorem had to exclude (a dict that uses the reserved key, holding another) -/
+example : Supported [] (.dict [("_type", .str "weapon"), ("dmg", .int 3), ("in", .list [.dict [("_type", .int 1), ("_data", .none)]])]) = true := by
+  decide
 
 /-- non-vacuity: a concrete nested value (object in a dict in a list in an object's data) is supported -/
 example : Supported [("Card", ("game", .auto)), ("Wallet", ("bardic.stdlib.economy", .custom))]
